@@ -145,3 +145,39 @@ pub proof fn lemma_suffix_boundary(e: Seq<char>, p: Seq<char>)
     assert(boundary(e, 0)) by { assert(blen(e.take(0)) == 0); }
     assert(e.subrange(0, k) =~= e.take(k));
 }
+
+// ------------------------------------------------------------------ Cram glob -> regex translation table (C04)
+pub open spec fn glob_special(c: char) -> bool { c == '*' || c == '?' || c == '\\' }
+/// the regular expression a Cram glob stands for, token by token: `\*` `\?` `\\` stay escaped (a literal), `*` is any run (`.*`),
+/// `?` is exactly one character (`.`), every other character is itself, escaped for the regex crate
+pub open spec fn g2r(g: Seq<char>) -> Seq<char> decreases g.len() {
+    if g.len() == 0 { Seq::empty() }
+    else if g[0] == '\\' && g.len() >= 2 && glob_special(g[1]) { seq!['\\', g[1]] + g2r(g.skip(2)) }
+    else if g[0] == '*' { seq!['.', '*'] + g2r(g.skip(1)) }
+    else if g[0] == '?' { seq!['.'] + g2r(g.skip(1)) }
+    else { rx_escape(seq![g[0]]) + g2r(g.skip(1)) }
+}
+/// the whole pattern: anchored at both ends
+pub open spec fn glob_pattern(g: Seq<char>) -> Seq<char> { seq!['^'] + g2r(g) + seq!['$'] }
+pub proof fn lemma_g2r_step(g: Seq<char>, i: int)
+    requires 0 <= i < g.len(),
+    ensures
+        g[i] == '\\' && i + 1 < g.len() && glob_special(g[i + 1]) ==> g2r(g.skip(i)) == seq!['\\', g[i + 1]] + g2r(g.skip(i + 2)),
+        !(g[i] == '\\' && i + 1 < g.len() && glob_special(g[i + 1])) && g[i] == '*' ==> g2r(g.skip(i)) == seq!['.', '*'] + g2r(g.skip(i + 1)),
+        !(g[i] == '\\' && i + 1 < g.len() && glob_special(g[i + 1])) && g[i] == '?' ==> g2r(g.skip(i)) == seq!['.'] + g2r(g.skip(i + 1)),
+        !(g[i] == '\\' && i + 1 < g.len() && glob_special(g[i + 1])) && g[i] != '*' && g[i] != '?' ==> g2r(g.skip(i)) == rx_escape(seq![g[i]]) + g2r(g.skip(i + 1)),
+{
+    let s = g.skip(i);
+    assert(s[0] == g[i]);
+    if i + 1 < g.len() { assert(s[1] == g[i + 1]); }
+    assert(s.skip(1) =~= g.skip(i + 1));
+    if i + 2 <= g.len() { assert(s.skip(2) =~= g.skip(i + 2)); }
+}
+/// statement level: in the translated pattern a `?` of the glob is exactly one `.` and a `*` exactly one `.*`, position by position
+/// (the pattern is the concatenation of the per-token translations, nothing is added or dropped)
+pub proof fn lemma_g2r_tokens(g: Seq<char>)
+    ensures
+        g.len() == 0 ==> g2r(g).len() == 0,
+        g.len() > 0 && g[0] == '?' ==> g2r(g) == seq!['.'] + g2r(g.skip(1)),
+        g.len() > 0 && g[0] == '*' ==> g2r(g) == seq!['.', '*'] + g2r(g.skip(1)),
+{}
